@@ -52,6 +52,15 @@ Definition spec_union_debug_body (name : option string) : block :=
        ECall (EPath (RCore ["fmt"; "Debug"; "fmt"])) [EVar "data"; EVar "f"]]
   end.
 
+(** what running it on the bytes [l] of `*self` does, as calls on the formatter:
+    named:     f.debug_tuple(name); .field(<the byte slice `data : &[u8]`, through its own Debug>); .finish()
+    nameless:  <[u8] as Debug>::fmt(data, f), directly on the formatter — nothing else *)
+Definition spec_union_debug_program (name : option string) (l : list nat) : list event :=
+  match name with
+  | Some n => [EvBuilderNew BTuple n; EvBuilderField None (FADebug (VRefTmp (VBytes l))); EvBuilderFinish]
+  | None => [EvDebugFmt (FADebug (VBytes l))]
+  end.
+
 (** the effective name: the type's identifier by default, a custom one, or none *)
 Definition effective_name (n : Expand_Debug.tname) (ident : string) : option string :=
   match n with
